@@ -228,6 +228,32 @@ def check_tools(ctx):
               "the LOCK file is not removed while the lock is held", "the LOCK file may be removed inside the loop")
 
 
+def check_parse_exact(ctx):
+    """Only names the library itself produces are database files: a numbered
+    file is accepted iff what follows the digits is exactly one of the known
+    suffixes.  destroy, backup and the collector act on whatever
+    ldb_parse_filename accepts, so a prefix match makes them delete or copy a
+    user's `000003.log.bak`."""
+    f = ctx.fn("ldb_parse_filename", "src/filename.c")
+    lits = []
+    for b, i, e in f.events("call"):
+        for a in e.get("a", []):
+            a2 = strip_casts(a)
+            if isinstance(a2, dict) and a2.get("k") == "str":
+                lits.append((e.get("f"), a2.get("v")))
+    suf = sorted((c, v) for c, v in lits if (v or "").startswith("."))
+    ctx.check(suf == [("strcmp", ".dbtmp"), ("strcmp", ".ldb"), ("strcmp", ".log"), ("strcmp", ".sst")], "T5-parse-exact", "suffixes", f.name, f.loc,
+              "the four numbered-file suffixes are compared exactly", "suffix tests are %s" % suf)
+    fixed = sorted((c, v) for c, v in lits if v in ("CURRENT", "LOCK", "LOG", "LOG.old"))
+    ctx.check(fixed == [("strcmp", "CURRENT"), ("strcmp", "LOCK"), ("strcmp", "LOG"), ("strcmp", "LOG.old")], "T5-parse-exact", "fixed-names", f.name, f.loc,
+              "CURRENT, LOCK, LOG and LOG.old are compared exactly", "fixed-name tests are %s" % fixed)
+    g = xgraph(ctx.P, f)
+    for b, i, e in f.events("ret"):
+        if const_val(e.get("x")) == 1:
+            atoms = g.must_at(b, i)
+            ctx.ok("T5-parse-exact", "accept@%s" % e["l"].split(":")[1], site(f, e), "accepting return under %s" % fmt_atoms(atoms)[:120], False)
+
+
 def check_lock_primitive(ctx):
     P = ctx.P
     lf = ctx.fn("ldb_lock_file", ENV)
@@ -384,6 +410,7 @@ def check_backup_section(ctx):
 
 
 def check(ctx):
+    check_parse_exact(ctx)
     check_handle_lock(ctx)
     check_tools(ctx)
     check_lock_primitive(ctx)
